@@ -14,7 +14,7 @@ use serde_json::{json, Value};
 pub struct Case {
     pub presence: usize, // 0 tool+base, 1 tool, 2 base, 3 none, 4 moved base + tool, 5 tool+base under a parallelogram (J2 drives J3), 6 tool + base whose body includes a post beside the robot (not symmetric about J1)
     pub layout: usize,
-    pub safety: usize, // 0 touch, 1 3 cm
+    pub safety: usize, // 0 touch, 1 3 cm, 2 3 cm with the pairs (J1, J6) and (J2, J6) exempt (NEVER_COLLIDES)
     pub limits: usize, // 0 wide, 1 tight
     pub initial: Joints,
     pub delta: [f64; 6],
@@ -42,7 +42,13 @@ fn cell_for(c: &Case) -> CellDesc {
         20 => vec![EnvObj { lo: [0.45, -0.3, 0.45], hi: [0.75, 0.3, 0.75], subdiv: 1, pose: Iso::identity(), shape: 0 }],
         k => env_layout(k),
     };
-    cell.safety = if c.safety == 0 { SafetyDesc::touch(0) } else { SafetyDesc { to_env: 0.03, to_robot: 0.03, special: vec![], mode: 0 } };
+    cell.safety = if c.safety == 0 {
+        SafetyDesc::touch(0)
+    } else if c.safety == 2 {
+        SafetyDesc { to_env: 0.03, to_robot: 0.03, special: vec![((0, 5), rs_opw_kinematics::collisions::NEVER_COLLIDES), ((5, 1), rs_opw_kinematics::collisions::NEVER_COLLIDES)], mode: 0 }
+    } else {
+        SafetyDesc { to_env: 0.03, to_robot: 0.03, special: vec![], mode: 0 }
+    };
     cell.limits = if c.limits == 0 {
         Limits { from: [-3.1; 6], to: [3.1; 6], weight: 0.0 }
     } else {
@@ -178,7 +184,7 @@ pub fn run(ctx: &Ctx) -> Report {
     let mags = [0.35, 1.3, 2.2, 2.9, 0.8, 1.8];
     let n_delta = if thorough { 72 } else { 24 };
     let layouts = [0usize, 2, 3, 9, 10, 20];
-    let sizes = [7, layouts.len(), 2, 2, initials.len(), n_delta];
+    let sizes = [7, layouts.len(), 3, 2, initials.len(), n_delta];
     let n = par::product(&sizes);
     let mut rep = par::run(n, |idx, r| {
         let mut ix = [0usize; 6];
@@ -187,6 +193,10 @@ pub fn run(ctx: &Ctx) -> Report {
         // delta vectors: joint i takes magnitude (d + i*(1 + d/4)) mod 4, so each joint sees each magnitude next to each neighbour magnitude
         let delta: [f64; 6] = std::array::from_fn(|i| mags[(d + i * (1 + d / 6)) % 6]);
         let c = Case { presence: ix[0], layout: layouts[ix[1]], safety: ix[2], limits: ix[3], initial: initials[ix[4]], delta, shape: if (idx / 3) % 2 == 0 { 0 } else { 1 + (idx as usize / 6) % 3 } };
+        // the table with exempt pairs on the cells with everything and with nothing attached
+        if c.safety == 2 && !(c.presence == 0 || c.presence == 3) {
+            return;
+        }
         match eval(&c, idx % 8 == 0) {
             Err(_) => r.skipped_precondition += 1,
             Ok((fails, sig)) => {
@@ -215,12 +225,12 @@ pub fn run(ctx: &Ctx) -> Report {
         rep.machinery_errors.push("no candidate blocked only by the tool meeting a link before the moved joint".into());
     }
     rep.traces_validated = rep.transitions;
-    rep.rule = "synthetic cell (with/without base and tool, moved base, parallelogram J2->J3 on top, base body with a post beside the robot) x environments x safety {touch, 3 cm} x limits {wide, tight} x collision-free initial \
+    rep.rule = "synthetic cell (with/without base and tool, moved base, parallelogram J2->J3 on top, base body with a post beside the robot) x environments x safety {touch, 3 cm, 3 cm with (J1, J6) and (J2, J6) exempt} x limits {wide, tight} x collision-free initial \
                 postures x from/to = initial -+ delta (half of the cases: from == to on one side of the initial value, or both on the same side) with per-joint magnitudes {0.35,0.8,1.3,1.8,2.2,2.9} (moving a joint into free space, self-collision, the base, \
                 the environment or out of limits); oracle: the 12 single-joint candidates kept iff arc membership accepts them and the full collides() \
                 of the same robot reports them free, compared as multisets; every 8th case re-run in rayon pools of 1, 2, 4, 8, 16 threads; \
                 signature = (offered, illegal, colliding)".into();
-    rep.set("axes", json!({"presence": 7, "layouts": layouts.len(), "safety": 2, "limits": 2, "initials": initials.len(), "delta_vectors": n_delta}));
+    rep.set("axes", json!({"presence": 7, "layouts": layouts.len(), "safety": 3, "limits": 2, "initials": initials.len(), "delta_vectors": n_delta}));
     rep.assumptions.push("the full collision check used as reference is tied to the brute-force pair oracle by C10".into());
     rep
 }
